@@ -23,6 +23,9 @@ def run(prop, tier):
         jobs.append(dict(src=SRC, atomic=a, args=["barrier"]))
         for k in ("i", "p"):
             jobs.append(dict(src=SRC, atomic=a, args=["mp", "-p", p, "--", k]))
+            jobs.append(dict(src=SRC, atomic=a, args=["mp", "-B", "-d", 2, "-p", p, "--", k]))
+        for k in ("ii", "pp", "ip"):      # store-buffering litmus under x86-TSO store buffers: up to 2 delayed stores (one per thread is what the forbidden outcome needs)
+            jobs.append(dict(src=SRC, atomic=a, args=["sb", "-B", "-d", 2, "-p", p, "--", k]))
         for l in LIN2 + LIN3 + (LIN_THOROUGH if tier == "thorough" else []):
             jobs.append(dict(src=SRC, atomic=a, args=["lin", "-p", p if len(l) < 4 or tier == "quick" else 3, "--"] + list(l)))
     acc = mcsched.run_jobs(prop, tier, jobs)
@@ -38,10 +41,14 @@ def run(prop, tier):
     cov = mcsched.coverage(acc, "(a) single-threaded: each of the 20 operations on every (word, operand[, new]) combination of a 9-value boundary alphabet "
                                 "(0, +-1, 2, INT_MAX, INT_MIN, INT_MAX-1, 0x55.., 0xAA.. and pointer-width analogues) vs the C expression on a wrapping word; "
                                 "(b) 2-3 real threads x 1-2 operations on one shared word, all interleavings with <= %d preemptions, recorded results + final value "
-                                "checked against every sequential order (brute force); (c) message passing through set/get under the happens-before monitor and "
-                                "full-barrier accounting of set/get; each for c11, sync, sim. non-trivial = executions of (b)/(c) jobs that completed their oracle" % p)
+                                "checked against every sequential order (brute force); (c) message passing through set/get under the happens-before monitor, the "
+                                "store-buffering litmus (set own word, get the other's; both old = violation) explored with x86-TSO store buffers in the runtime "
+                                "(every choice of <= 2 delayed stores x every interleaving), and full-barrier accounting of set/get; each for c11, sync, sim. non-trivial = executions of (b)/(c) jobs that completed their oracle" % p)
     return common.finish(prop, tier, "model_checking", acc, cov, mcsched.ASSUME + [
-        "'set/get act as full barriers' is decided by accounting: the runtime sees the memory order of every atomic op/fence the call executes; a store->load reordering itself is not simulated"], t0, extra=extra)
+        "'set/get act as full barriers' is decided (1) by exploring the store-buffering and message-passing litmus tests on an x86-TSO machine model "
+        "(per-thread FIFO store buffers for plain/volatile stores and atomic stores weaker than seq_cst, drained by fences, locked operations, locks and system calls; "
+        "orderings only a weaker machine than TSO allows, e.g. load-load or store-store reordering on ARM, are not simulated) and (2) by accounting: the runtime sees "
+        "the memory order of every atomic op/fence each call executes"], t0, extra=extra)
 
 
 replay = mcsched.replay
